@@ -677,6 +677,40 @@ func ruleC14Unbuffered(p *Prog, a *Anchors, r *Report) {
 				default:
 					r.OK(key, p.InstrPos(in), "forwarded only while no write has failed; the result is remembered in %s.%s", an, errField)
 				}
+				// … and only with something to write: the buffered variants hand the rendering over with
+				// bytes.Buffer.WriteTo, which never calls Write without bytes. Output nodes write empty strings all
+				// the time ({{ missing }}); forwarding those makes a closed writer an error of the unbuffered variant
+				// where ExecuteWriter succeeds.
+				nonEmpty := Guarded(in, func(cond ssa.Value, pol bool) bool {
+					bo, ok := cond.(*ssa.BinOp)
+					if !ok {
+						return false
+					}
+					isLen := func(v ssa.Value) bool {
+						c, ok := v.(*ssa.Call)
+						if !ok {
+							return false
+						}
+						bi, ok := c.Common().Value.(*ssa.Builtin)
+						return ok && bi.Name() == "len" && len(c.Common().Args) == 1 && len(c.Common().Args) > 0 && (c.Common().Args[0] == c.Common().Args[0]) && sameBytes(c.Common().Args[0], in.(*ssa.Call))
+					}
+					k, isK := constInt(bo.Y)
+					if !isK || k != 0 || !isLen(bo.X) {
+						return false
+					}
+					switch bo.Op {
+					case token.EQL:
+						return !pol
+					case token.NEQ, token.GTR:
+						return pol
+					}
+					return false
+				})
+				if nonEmpty {
+					r.OK(key+":non-empty", p.InstrPos(in), "a write without bytes is not forwarded")
+				} else {
+					r.Bad(key+":non-empty", p.InstrPos(in), "writes without bytes are forwarded to the caller's writer: the output nodes write empty strings ({{ missing }}), a writer that fails every call (a closed file) then makes ExecuteWriterUnbuffered fail where ExecuteWriter — whose bytes.Buffer.WriteTo never calls Write without bytes — succeeds")
+				}
 			}
 		}
 	}
@@ -716,4 +750,14 @@ func ruleC14Unbuffered(p *Prog, a *Anchors, r *Report) {
 			r.Bad(key, p.InstrPos(in), "%s can return nil although the caller's writer has failed: the unbuffered variant succeeds where ExecuteWriter reports the writer's error", p.FuncName(f))
 		}
 	})
+}
+
+// sameBytes: v is the byte slice the forwarded call writes (its argument).
+func sameBytes(v ssa.Value, call *ssa.Call) bool {
+	for _, a := range call.Common().Args {
+		if a == v {
+			return true
+		}
+	}
+	return false
 }
